@@ -156,3 +156,37 @@ def gen_ops(rng, tier, ctx=None):
                     vals[m] = modulus()
                     el = rng.choice([0, 1, 2, 3, 7, 18, 19, 20, 21, 1000, 65537, (1 << 64) - 1, rng.getrandbits(rng.randrange(1, 65))])
                     yield "alias_powm_ui %x %x %x %x %s" % (r, b, m, el, " ".join(hx(v) for v in vals))
+    # mpf_div / mpf_mul / mpf_sqrt / mpf_div_ui on three mpf variables, every (r, u, v); each variable has its own precision and
+    # possibly MORE limbs than prec + 1 (mpf_set_prec_raw): r = u with a long u (the dividend is chopped AND must be copied),
+    # r = v, u = v, short operands (zero padding), operand sizes around prec, 2 prec, quotient / product / root with a zero top limb
+    def fop(prec=None, n=None):
+        prec = prec if prec is not None else rng.choice([2, 2, 3, 4, 6])
+        n = n if n is not None else rng.choice([0, 1, 1, 2, prec, prec + 1, prec + 2, 2 * prec, 2 * prec + 1, 2 * prec + 3])
+        limbs = rand_limbs(rng, n, rng.choice(["uniform", "runs", "ones", "sparse"])) if n else []
+        if n:
+            k = rng.randrange(5)
+            if k == 0: limbs[-1] = 1
+            elif k == 1: limbs[-1] = (1 << 64) - 1
+            elif k == 2: limbs[-1] = 1 << 63
+            if limbs[-1] == 0: limbs[-1] = 1
+            if rng.random() < 0.2:
+                for i in range(n // 2): limbs[i] = 0
+        size = n if rng.random() < 0.5 else -n
+        e = rng.choice([0, 1, 2, -1, -2, 3, 7, -5, n, n + 1]) if n else 0
+        return "%x %s %s %s" % (prec, hx(size), hx(e), vec(limbs))
+    for fn in ("fdiv", "fmul"):
+        for r in range(3):
+            for u in range(3):
+                for v in range(3):
+                    for _ in range(reps * 2):
+                        yield "alias_%s %x %x %x 0 %s %s %s" % (fn, r, u, v, fop(), fop(), fop())
+    for r in range(3):
+        for u in range(3):
+            for _ in range(reps * 4):
+                ops3 = [fop(), fop(), fop()]
+                if rng.random() < 0.9 and ops3[u].split()[1].startswith("-"):
+                    f = ops3[u].split(); f[1] = f[1][1:]; ops3[u] = " ".join(f)
+                yield "alias_fsqrt %x %x 0 0 %s" % (r, u, " ".join(ops3))
+                ui = rng.choice([1, 2, 3, 10, 1 << 63, (1 << 64) - 1, rng.getrandbits(rng.randrange(1, 65)) | 1])
+                if rng.random() < 0.03: ui = 0
+                yield "alias_fdiv_ui %x %x 0 %x %s %s %s" % (r, u, ui, fop(), fop(), fop())
